@@ -310,6 +310,99 @@ fn check_pg_faithful(t: &ConstraintTree<PGConstraint>, cs: &[PGConstraint], pool
     }
 }
 
+/// Deterministic reading of a tree that sets `make_det` (the builder may then make the state
+/// deterministic: only the first satisfied transition of the root is taken), on concrete hosts:
+/// key number k of the pool is bound to node k (an injective binding, what the not-equal
+/// constraints generated before any IsConnected constraint guarantee), every node has ports
+/// in0..in1, out0..out1, and the links realise a subset of the IsConnected constraints of the list
+/// (all subsets up to 6 constraints). A label i of the tree must be reached iff constraint i holds.
+fn check_pg_det(t: &ConstraintTree<PGConstraint>, cs: &[PGConstraint], pool: &[PGIndexKey], replay: &str, o: &mut Out) {
+    if !t.make_det || t.children(0).count() < 2 {
+        return;
+    }
+    let node = |k: &PGIndexKey| pool.iter().position(|p| p == k).unwrap();
+    // (out node, out port, in node, in port) of a realisable IsConnected constraint
+    let link_of = |c: &PGConstraint| -> Option<(usize, usize, usize, usize)> {
+        if let PGPredicate::IsConnected { left_port, right_port } = c.predicate() {
+            let a = c.required_bindings();
+            match (left_port, right_port) {
+                (PortOffset::Outgoing(l), PortOffset::Incoming(r)) => Some((node(&a[0]), *l as usize, node(&a[1]), *r as usize)),
+                (PortOffset::Incoming(l), PortOffset::Outgoing(r)) => Some((node(&a[1]), *r as usize, node(&a[0]), *l as usize)),
+                _ => None,
+            }
+        } else {
+            None
+        }
+    };
+    let mut conns: Vec<(usize, usize, usize, usize)> = vec![];
+    for c in cs.iter().chain((0..t.n_nodes()).flat_map(|n| t.children(n).map(|(_, c)| c).collect::<Vec<_>>())) {
+        if let Some(l) = link_of(c) {
+            if !conns.contains(&l) {
+                conns.push(l);
+            }
+        }
+    }
+    conns.truncate(6);
+    for mask in 0..(1usize << conns.len()) {
+        let mut links: Vec<(usize, usize, usize, usize)> = vec![];
+        for (i, l) in conns.iter().enumerate() {
+            if (mask >> i) & 1 == 1 && !links.iter().any(|m| (m.0 == l.0 && m.1 == l.1) || (m.2 == l.2 && m.3 == l.3)) {
+                links.push(*l);
+            }
+        }
+        let truth = |c: &PGConstraint| -> bool {
+            match c.predicate() {
+                PGPredicate::IsNotEqual { .. } => {
+                    let a = c.required_bindings();
+                    !a[1..].iter().any(|k| *k == a[0])
+                }
+                PGPredicate::IsConnected { .. } => link_of(c).map_or(false, |l| links.contains(&l)),
+                _ => true,
+            }
+        };
+        // deterministic at the root, all satisfied edges below
+        let mut reach = vec![0usize];
+        let mut todo = vec![0usize];
+        while let Some(n) = todo.pop() {
+            for (i, c) in t.children(n) {
+                if truth(c) && !reach.contains(&i) {
+                    reach.push(i);
+                    todo.push(i);
+                    if n == 0 {
+                        break;
+                    }
+                }
+            }
+        }
+        for n in 0..t.n_nodes() {
+            for &i in t.constraint_indices(n) {
+                if i >= cs.len() {
+                    return;
+                }
+            }
+        }
+        for i in 0..cs.len() {
+            let in_tree = (0..t.n_nodes()).any(|n| t.constraint_indices(n).contains(&i));
+            let reached = reach.iter().any(|&n| t.constraint_indices(n).contains(&i));
+            if in_tree && reached != truth(&cs[i]) {
+                o.violation(
+                    format!(
+                        "port-graph tree (make_det set) under the deterministic reading of its root, key k bound to node k, links {:?}: constraint {} is {} but a node labelled {} is {}",
+                        links,
+                        i,
+                        if truth(&cs[i]) { "satisfied" } else { "not satisfied" },
+                        i,
+                        if reached { "reached" } else { "not reached" }
+                    ),
+                    replay.to_string(),
+                );
+                return;
+            }
+        }
+    }
+    o.count("kind", "pg tree, deterministic reading on concrete hosts");
+}
+
 fn eval_pg_tree(cs: Vec<PGConstraint>, pool: &[PGIndexKey], o: &mut Out) {
     let line = sexp::l(vec![sexp::a("tree"), sexp::a("pg"), sexp::list(&cs, pgcons_s)]);
     let replay = line.to_string();
@@ -324,6 +417,7 @@ fn eval_pg_tree(cs: Vec<PGConstraint>, pool: &[PGIndexKey], o: &mut Out) {
         o.violation(format!("port-graph tree does not contain the smallest constraint (index {})", min_i), replay.clone());
     }
     check_pg_faithful(&t, &cs, pool, "port-graph tree", &replay, o);
+    check_pg_det(&t, &cs, pool, &replay, o);
     o.count("kind", "pg tree");
 }
 
